@@ -363,15 +363,14 @@ def mofunCliTrace (find_path : Option String) (replace_path : Option String) (du
   (if (Option.isSome replicate) then
     ["atoms = atoms.replicate(replicate)"]
   else
-    []) ++
-  (if (Option.isSome mic) then
-    (if cell_is_orthorhombic then
-      ["l4 = np.array(np.ceil(2 * mic / np.diag(atoms.cell)), dtype=int)",
-       "atoms = atoms.replicate(l4)"]
+    (if (Option.isSome mic) then
+      (if cell_is_orthorhombic then
+        ["l4 = np.array(np.ceil(2 * mic / np.diag(atoms.cell)), dtype=int)",
+         "atoms = atoms.replicate(l4)"]
+      else
+        ["print('WARNING: Minimimum image convention is only implemented for orthorhombic structures, please use --replicate')"])
     else
-      ["print('WARNING: Minimimum image convention is only implemented for orthorhombic structures, please use --replicate')"])
-  else
-    []) ++
+      [])) ++
   (if pp then
     ["assign_pair_params_to_structure(atoms)"]
   else
